@@ -123,7 +123,7 @@ fn stmt_families(args: &Args, rng: &mut Rng, meta: &mut Meta) {
     let mut features_seen: std::collections::BTreeMap<&'static str, usize> = Default::default();
     for k in 0..n_libs {
         let depth = 1 + (k % 3) as u32;
-        let lib = stmt::library(rng, depth);
+        let lib = if k % 4 == 3 { stmt::chain_library(rng) } else { stmt::library(rng, depth) };
         let srcs: Vec<(String, String)> = lib.iter().map(|(n, b)| (n.clone(), stmt::body_src(b, rng))).collect();
         let mut tera = Tera::default();
         tera.autoescape_on(vec![".html"]);
@@ -164,8 +164,7 @@ fn stmt_families(args: &Args, rng: &mut Rng, meta: &mut Meta) {
                 .collect::<Vec<_>>()
                 .join("; ")
         );
-        let libname = format!("lib_{:x}", fnv_pub(&glib));
-        let defs = vec![(libname.clone(), glib)];
+        let libname = glib; // inlined: replays evaluate the case term on its own
         for _ in 0..(if thorough { 2 } else { 1 }) {
             let (ctx, glob) = stmt::contexts(rng);
             let c = to_context(&ctx);
@@ -186,7 +185,7 @@ fn stmt_families(args: &Args, rng: &mut Rng, meta: &mut Meta) {
             let total: usize = lib.iter().map(|(_, b)| b.iter().map(|s| s.count()).sum::<usize>()).sum();
             let nontrivial = matches!(&r, Outcome::Ok(s) if s.chars().count() > 3) && total >= 5;
             let tag = match &r { Outcome::Ok(_) => "impl:ok", Outcome::Err(..) => "impl:err", Outcome::Panic(_) => "impl:panic" };
-            rsink.push_with_defs(&defs, g, desc, nontrivial, None, &[tag]);
+            rsink.push(g, desc, nontrivial, None, &[tag]);
         }
     }
     meta.extra.insert("stmt_libraries_rejected".into(), json!(rejected));
@@ -278,11 +277,27 @@ fn main() {
 
     // ---- template sets: inheritance, includes, render and render_block
     let n_sets = if thorough { 40 } else { 18 };
-    for k in 0..n_sets {
-        let set = gen_set(&mut rng, k);
+    // include chains of depth 2-4 (statement-tree generator, printed as source); the innermost
+    // template additionally reads the includers' loop counter through its reserved name
+    let n_chain_sets = if thorough { 60 } else { 10 };
+    let mut chain_sets_rejected = 0usize;
+    for k in 0..(n_sets + n_chain_sets) {
+        let set = if k < n_sets {
+            gen_set(&mut rng, k)
+        } else {
+            let lib = stmt::chain_library(&mut rng);
+            let mut templates: Vec<(String, String)> = lib.iter().map(|(n, b)| (n.clone(), stmt::body_src(b, &mut rng))).collect();
+            if rng.chance(1, 2) {
+                templates.last_mut().unwrap().1.push_str("{{ __tera_loop_index | default(value=\"-\") }}{{ __tera_loop_length | default(value=\"-\") }}");
+            }
+            SetCase { label: format!("chain#{k}"), templates }
+        };
         let mut tera = Tera::default();
         tera.autoescape_on(vec![".html"]);
         if tera.add_raw_templates(set.templates.clone()).is_err() {
+            if set.label.starts_with("chain") {
+                chain_sets_rejected += 1;
+            }
             continue;
         }
         let names: Vec<String> = set.templates.iter().map(|(n, _)| n.clone()).collect();
@@ -313,7 +328,12 @@ fn main() {
         let gworld_term = format!("[{}]", gtpls.join("; "));
         let gworld = format!("wd_{:x}", fnv_pub(&gworld_term));
         let defs = vec![(gworld.clone(), gworld_term)];
-        for (cname, c) in ctxs.iter().take(if thorough { ctxs.len() } else { 3 }) {
+        let set_ctxs: Vec<(String, Vec<(String, Value)>)> = if set.label.starts_with("chain") {
+            vec![("stmt".to_string(), stmt::contexts(&mut rng).0)]
+        } else {
+            ctxs.iter().take(if thorough { ctxs.len() } else { 3 }).cloned().collect()
+        };
+        for (cname, c) in set_ctxs.iter() {
             let ctx = to_context(c);
             for tl in &listings {
                 let mut targets: Vec<Option<String>> = vec![None];
@@ -343,6 +363,7 @@ fn main() {
         }
     }
     meta.extra.insert("skipped_outside_modelled_subset".into(), json!(skipped_subset));
+    meta.extra.insert("chain_sets_rejected".into(), json!(chain_sets_rejected));
     meta.families.push(sink.finish());
     stmt_families(&args, &mut rng, &mut meta);
     meta.write(&args.out);
